@@ -10,6 +10,9 @@ if not repo or os.path.realpath(repo) == "/repo":
     sys.exit("set VERIF_REPO to a scratch checkout")
 seeds = [int(x) for x in (sys.argv[1:] or ["11", "22"])]
 names = sorted(os.listdir(os.path.join(ROOT, "seeded")))
+if os.environ.get("VERIF_SWEEP_SHARD"):            # "i/n": this process takes every n-th change starting at i
+    _i, _n = [int(x) for x in os.environ["VERIF_SWEEP_SHARD"].split("/")]
+    names = names[_i::_n]
 missed = []
 for n in names:
     d = os.path.join(ROOT, "seeded", n)
